@@ -419,6 +419,7 @@ type funcContext struct {
 	labelPc         map[int]int
 	gotosCount      int
 	unresolvedGotos map[int]*gotoLabelDesc
+	hasNamedLabel   bool // a ::label:: has been compiled in this function
 	// nesting depth of the statement/expression being compiled (counted
 	// across enclosing functions); bounds the compiler's own recursion
 	syntaxLevel int
@@ -478,6 +479,7 @@ func (fc *funcContext) AddNamedLabel(label *gotoLabelDesc) {
 		raiseCompileError(fc, label.Line+1, "label '%s' already defined on line %d", label.Name, old.Line)
 	}
 	fc.SetLabelPc(label.Id, label.Pc)
+	fc.hasNamedLabel = true
 }
 
 func (fc *funcContext) GetNamedLabel(name string) *gotoLabelDesc {
@@ -496,7 +498,11 @@ func (fc *funcContext) ResolveGoto(from, to *gotoLabelDesc, index int) {
 func (fc *funcContext) FindLabel(block *codeBlock, gotoLabel *gotoLabelDesc, i int) bool {
 	target := block.GetLabel(gotoLabel.Name)
 	if target != nil {
-		if gotoLabel.NumActiveLocalVars > target.NumActiveLocalVars && block.RefUpvalue {
+		// not only when the block is already known to have captured locals: a
+		// closure that appears later in the text can have run before this jump
+		// does (backward goto). The CLOSE is there anyway; with nothing open
+		// it does nothing.
+		if gotoLabel.NumActiveLocalVars > target.NumActiveLocalVars {
 			fc.Code.SetA(gotoLabel.Pc-1, target.NumActiveLocalVars)
 		}
 		fc.ResolveGoto(gotoLabel, target, i)
@@ -513,9 +519,7 @@ func (fc *funcContext) ResolveCurrentBlockGotosWithParentBlock() {
 			continue
 		}
 		if gotoLabel.NumActiveLocalVars > blockActiveLocalVars {
-			if fc.Block.RefUpvalue {
-				fc.Code.SetA(gotoLabel.Pc-1, blockActiveLocalVars)
-			}
+			fc.Code.SetA(gotoLabel.Pc-1, blockActiveLocalVars)
 			gotoLabel.SetNumActiveLocalVars(blockActiveLocalVars)
 		}
 		fc.FindLabel(fc.Block.Parent, gotoLabel, i)
@@ -1101,7 +1105,9 @@ func compileBreakStmt(context *funcContext, stmt *ast.BreakStmt) { // {{{
 		// the break also leaves every block nested between it and the loop
 		refUpvalue = refUpvalue || block.RefUpvalue
 		if label := block.BreakLabel; label != labelNoJump {
-			if refUpvalue {
+			// with a label earlier in the function a backward goto can bring
+			// control here after a closure further down has captured a local
+			if refUpvalue || context.hasNamedLabel {
 				context.Code.AddABC(OP_CLOSE, block.Parent.LocalVars.LastIndex(), 0, 0, sline(stmt))
 			}
 			context.Code.AddASbx(OP_JMP, 0, label, sline(stmt))
